@@ -83,6 +83,19 @@ MENU40 = (
 )
 
 
+_AL = ["BEGIN:VALARM", "ACTION:DISPLAY", "TRIGGER:-PT5M", "END:VALARM"]
+_EV = lambda *l: ["BEGIN:VEVENT", "UID:1"] + [x for p_ in l for x in ([p_] if isinstance(p_, str) else p_)] + ["END:VEVENT"]  # noqa: E731
+# sibling components that are equal, or differ in a parameter only: every one of them is a component of the text
+TWINS = (
+    ["BEGIN:VCALENDAR"] + _EV(_AL, _AL) + ["END:VCALENDAR"],
+    ["BEGIN:VCALENDAR"] + _EV("SUMMARY;LANGUAGE=en:Party") + _EV("SUMMARY;LANGUAGE=fr:Party") + ["END:VCALENDAR"],
+    ["BEGIN:VCALENDAR"] + _EV() + _EV() + _EV() + ["END:VCALENDAR"],
+    ["BEGIN:VCALENDAR", "BEGIN:X-COMP", "END:X-COMP", "BEGIN:X-COMP", "END:X-COMP", "END:VCALENDAR"],
+    ["BEGIN:VCALENDAR"] + _EV(_AL, "BEGIN:X-IN", "END:X-IN", _AL, "BEGIN:X-IN", "END:X-IN") + _EV(_AL) + ["END:VCALENDAR"],
+    ["BEGIN:VCALENDAR"] + _EV("SEQUENCE;X-P=1:0") + _EV("SEQUENCE;X-P=2:0") + _EV("ATTENDEE;CN=a:mailto:x@y") + _EV("ATTENDEE;CN=b:mailto:x@y") + ["END:VCALENDAR"],
+    ["BEGIN:VTIMEZONE", "TZID:Custom/Twins", "BEGIN:STANDARD", "DTSTART:19701025T030000", "TZOFFSETFROM:+0200", "TZOFFSETTO:+0100", "END:STANDARD",
+     "BEGIN:STANDARD", "DTSTART:19701025T030000", "TZOFFSETFROM:+0200", "TZOFFSETTO:+0100", "END:STANDARD", "END:VTIMEZONE"],
+)
 GRAM_TEMPLATES = ("DURATION:{}", "TRIGGER:{}", "TRIGGER;RELATED=END:{}", "FREEBUSY:19970308T160000Z/{}",
                   "RDATE;VALUE=PERIOD:19970101T180000Z/{},19970102T180000Z/19970102T190000Z")
 VTZ_OBSERVANCES = (
@@ -328,6 +341,11 @@ def run_case(case):
             return {"state": ("forest-rejected", len(forest)), "trans": 1, "nontrivial": True, "outcome": "forest-single-rejected", "fails": fails}
         outcome = judge(text, case, fails, multiple, history=True)
         nt = sum(1 for _ in lines) > 3
+    elif kind == "twins":
+        _, provider, i = case
+        text = "\r\n".join(TWINS[i]) + "\r\n"
+        outcome = judge(text, case, fails, False, history=True)
+        nt = True
     elif kind == "line":
         _, provider, container, ti, s = case
         text = wrap(container, [TEMPLATES[ti].replace("{s}", s)])
@@ -398,6 +416,9 @@ def run(ctx):
             for t in trees(m):
                 for multiple in (False, True):
                     yield ("tree", "zoneinfo", (t,), multiple)
+        for provider in env.PROVIDERS:
+            for i in range(len(TWINS)):
+                yield ("twins", provider, i)
         for total in range(2, n):
             for a in range(1, total):
                 for t1 in trees(a):
